@@ -17,6 +17,12 @@ Specification: spec/P2Hex.tla
     -l, no Intel-16/32 line leaving its 64K segment/bank, machine = functional Emit.  Pinned model: every failure
     of the public verdict is attributable to a named deviation (InvPinnedExplained); P2Hex_MCpinnedFail is
     EXPECTED to violate InvVerdict (the model predicts the defects).
+    Per-group state (FirstBank, IntOffset, HSeg, ChkSum, MotRecType, RecCnt, GrpLineLen) is explicit emitter
+    state that survives a record group (st.loc) and is re-initialised by named steps of the prologue
+    (InvGroupReset); the case space contains 2- and 3-record files whose first record ends exactly on (thorough:
+    also one before / after) a 64 KiB, 1 MiB, 16 MiB boundary - in units and in bytes - followed by records in
+    the same, the next and a lower bank.  P2Hex_MCcarryFirstBank / P2Hex_MCcarryRecCnt take one
+    re-initialisation out and are EXPECTED to violate InvVerdict (the case space can see this defect class).
 (G) every case of that case space is exported by TLC (P2Hex_Gen), rendered to a code file with the independent
     writer vlib.codefile.write, converted by the REAL p2hex; plus seeded larger cases (1-4 records up to 600
     bytes, all option dimensions incl. -f, -segment, file offset, DEFAULT format over 20 CPU families, odd -l,
@@ -47,6 +53,9 @@ model stays in the specification: it is what attributes a failure to a known cau
 Binding shown (./check C06 --selftest; selftest/c06_mutants.py):
  (a) corrupted recorded fields (checksum byte, removed line, address changed with a consistent checksum) of real
      Moto/Intel/Intel16/Intel32/Atmel/C outputs: all 18 rejected by TLC, the 6 unmodified ones accepted;
+ (c) `FirstBank = False` removed from the Intel-32 group header (a record ending exactly on a 64 KiB boundary
+     followed by another record gets a spurious :02000004): missed by the first version of this check (no
+     exact-boundary multi-record cases), reported now (mutant m18_firstbank_carry).
  (b) source mutations of p2hex.c/headids.c on scratch copies (first run on the pinned tree, numbers below; the stored
      set selftest/c06_mutants.py applies to the repaired tree and adds r_* = each repair reverted) (all compile; ctest 201/201 as p2hex is not run by any
      test): S-record checksum `^ 0xff` -> `^ 0xfe` (2274 violations), S5 count +1 (694), Intel checksum without the +1
@@ -165,6 +174,50 @@ def random_case(r, idx):
     if r.random() < 0.1:
         o["ofs"] = r.choice([0x10, 0x1000, 0x20000])
     return mk_case(recs, o, fentry, origin="random/%d" % idx)
+
+
+BOUNDARIES = [0x10000, 0x20000, 0x100000, 0x1000000, 0x8000, 0x80000, 0x30000]
+
+
+def boundary_case(r, idx):
+    """record i ends exactly on / one before / one after a 64 KiB, 1 MiB or 16 MiB boundary (in units or in bytes)
+    and record i+1 lies in the same bank, the next bank or a lower bank: per-group state must not leak"""
+    cpu, gran, dfl = r.choice(FAMILIES)
+    B = r.choice(BOUNDARIES)
+    d = r.choice([0, 0, 0, -1, 1])
+    n = r.choice([1, 2, 5, 16, 17, 40, 300 // gran])
+    end = B + d
+    recs = [{"cpu": cpu, "seg": 1, "gran": gran, "start": end - n, "data": [r.randrange(256) for _ in range(n * gran)]}]
+    used = [(end - n, end - 1)]
+    for _ in range(r.choice([1, 1, 2, 3])):
+        where = r.choice(["same", "next", "lower", "adjacent", "far"])
+        m = r.choice([1, 3, 8, 33])
+        st = {"same": end - n - m - r.choice([1, 4, 200]), "next": B + r.choice([0, 1, 16, 0x800]),
+              "lower": max(0, B - 0x10000 + r.choice([0, 7, 0x100])) if B >= 0x10000 else r.choice([0, 9]),
+              "adjacent": end, "far": B + 0x10000 * r.choice([1, 2, 16]) + r.choice([0, 5])}[where]
+        if st < 0 or any(not (st + m - 1 < a or st > b) for a, b in used):
+            continue
+        used.append((st, st + m - 1))
+        recs.append({"cpu": cpu, "seg": 1, "gran": gran, "start": st, "data": [r.randrange(256) for _ in range(m * gran)]})
+    if r.random() < 0.15:
+        recs.append(recs.pop(0))           # the boundary record last: must be unaffected
+    o = {"fmt": r.choice(["DEFAULT"] + EXPL_FORMATS * 2)}
+    fmt = dfl if o["fmt"] == "DEFAULT" else o["fmt"]
+    o["l"] = r.choice([2, 8, 16, 16, 32, 254, r.randrange(1, 255)])
+    if fmt == "MOTO":
+        o["M"] = r.choice([1, 1, 2, 3])
+        o["rec5"] = r.random() < 0.7
+    if fmt.startswith("INTEL"):
+        o["i"] = r.choice([0, 0, 1, 2])
+        if gran in (2, 4) and r.random() < 0.3:
+            o["m"] = r.choice([0, 1])
+    if fmt == "ATMEL":
+        o["avrlen"] = r.choice([2, 3, 3])
+    if r.random() < 0.15:
+        o["rel"] = True
+    if r.random() < 0.15:
+        o["reloc"] = r.choice([0x10000, 0x100, -1 if min(a for a, _ in used) > 0 else 0])
+    return mk_case(recs, o, -1, origin="boundary/%d" % idx)
 
 
 def special_cases():
@@ -411,6 +464,16 @@ def main(tier):
             raise CheckError("P2Hex_MCpinnedFail: %s" % pf.error)
         rep.part("P2Hex_MC(pinned model, InvVerdict expected to fail)", predicted_defect=bool(pf.violation),
                  distinct_states=pf.distinct)
+    # sensitivity of the case space to per-group state that leaks from one record group into the next
+    with Phase("P2Hex_MC carry-over sensitivity"):
+        for cfg in ("P2Hex_MCcarryFirstBank.cfg", "P2Hex_MCcarryRecCnt.cfg"):
+            sr = tlc.run("P2Hex_MC", cfg, workers=2, timeout=900, collect=False)
+            if sr.error:
+                raise CheckError("%s: %s" % (cfg, sr.error))
+            if not sr.violation:
+                raise CheckError("%s: the case space does not expose a group prologue that forgets to re-initialise "
+                                 "this variable (the model check found no violation)" % cfg)
+            rep.part("P2Hex_MC(%s, InvVerdict expected to fail)" % cfg, exposed=True, distinct_states=sr.distinct)
 
     seen = set()
     cases = []
@@ -424,11 +487,13 @@ def main(tier):
     r = rng("c06")
     nrand = 1200 if quick else 20000
     cases += [random_case(rng("c06/r%d" % i), i) for i in range(nrand)]
+    nbound = 800 if quick else 12000
+    cases += [boundary_case(rng("c06/b%d" % i), i) for i in range(nbound)]
     cases += special_cases()
     with Phase("corpus code files"):
         cc = corpus_cases(bld, r, tier)
     cases += cc
-    rep.part("cases", tlc_generated=ngen, seeded_random=nrand, corpus=len(cc), special=len(special_cases()))
+    rep.part("cases", tlc_generated=ngen, seeded_random=nrand, seeded_boundary=nbound, corpus=len(cc), special=len(special_cases()))
 
     with Phase("run p2hex on %d cases" % len(cases)):
         results = p2hexio.run_many(bld, [(c["p"], c["o"]) for c in cases], workers=min(NCPU, 12))
